@@ -250,6 +250,11 @@ def run(ctx):
         fams = [f for f in fams if f['name'] in keep]
     k = ctx.seed % len(fams)
     jobs = [(f, tols) for f in fams[k:] + fams[:k]]
+    if ctx.thorough:
+        # an evenly spread quarter of the five-cell workbooks of the enumerated family (all template assignments)
+        enum = family.enumerated(limit=240)
+        jobs += [(f, [None]) for f in enum]
+        ctx.extra['enumerated_workbooks'] = len(enum)
     ctx.pmap(work, jobs, timeout=3000)
     ctx.pmap(work_unevaluable, [('unknown',), ('raises',)], timeout=600)
     ctx.counts['traces_validated_against_impl'] = ctx.counts.get('evaluations', 0)
